@@ -70,6 +70,8 @@ pub fn campaigns(ctx: &Ctx) -> Stats {
     let (len, total) = t.pick((12usize, 100000u64), (40, 1500000));
     for (name, exact) in [("exact-programs", true), ("mixed-programs", false)] {
         let mut cfg = GenCfg::programs(exact);
+        // several passes per program (on the same result again, on other results): gradients accumulate
+        cfg.kinds.push((Kind::Backward, 5));
         cfg.max_steps = t.pick(16, 48);
         cfg.max_elems = t.pick(64, 400);
         cfg.max_size = t.pick(3, 5);
